@@ -139,13 +139,14 @@ def put_file(key, prefix, content, paths, tmp):
 
 
 def controller_sv(mc):
-    """What a controller's struct definitions say about sv now: [[name, default], ...]"""
+    """What a controller says now: its host, boot port and the defaults of structs[b"sv"]."""
     try:
         sv = mc.structs[b"sv"]
-        return [[n.decode("latin-1"), f.default if isinstance(f.default, int) else repr(f.default)]
-                for n, f in sv.fields.items()]
+        return dict(host=mc.initial_host, port=mc.boot_port,
+                    sv=[[n.decode("latin-1"), f.default if isinstance(f.default, int) else repr(f.default)]
+                        for n, f in sv.fields.items()])
     except Exception as e:      # noqa
-        return ["unreadable", repr(e)]
+        return dict(host=None, port=None, sv=["unreadable", repr(e)])
 
 
 def run_history(h):
